@@ -2,7 +2,7 @@
 # seedverify.sh <PROP> <a|b> : confirm a seeded change in a scratch worktree of /repo:
 #   patch applies to HEAD, builds, the existing test suite passes with it, the demonstration fails with it and passes without it.
 # Writes /tmp/seedout/<PROP>/<x>/verify.txt and prints one summary line.
-P=$1; X=$2; D=/tmp/seedout/$P/$X
+P=$1; X=$2; D=${SEEDROOT:-/tmp/seedout}/$P/$X
 W=$(mktemp -d /tmp/sv-XXXXXX)
 cleanup() { git -C /repo worktree remove --force "$W/r" >/dev/null 2>&1; rm -rf "$W"; }
 trap cleanup EXIT
